@@ -10,7 +10,8 @@ Applied to index expressions in expression / prefix / assignment-target position
 (`process_expression`, `process_prefix_expression`, `process_variable`) and to `[key] = value`
 table entries (`process_table_expression`). One `DefaultVisitor` pass.
 
-Known defect F6: the key expression is dropped without asking whether it has side effects.
+F6 (fixed): the key expression used to be dropped without asking whether it has side effects;
+`convert_to_field` now answers `None` when `has_side_effects(key)`.
 -/
 namespace DarkluaModel.Rules.ConvertIndexToField
 open DarkluaModel.Rules
@@ -38,9 +39,11 @@ def validIdentifier (s : List UInt8) : Option String :=
 
 /-- `convert_to_field` -/
 def convertToField (api : EvalApi) (key : Expr) : Option String :=
-  match api.kind key with
-  | .string s => validIdentifier s
-  | _ => none
+  if api.hasSideEffects key then none   -- (fix of F6: the key expression is dropped by the conversion)
+  else
+    match api.kind key with
+    | .string s => validIdentifier s
+    | _ => none
 
 /-- `process_expression` / `process_prefix_expression` / `process_variable` -/
 def convertIndex (api : EvalApi) : Expr → Expr
@@ -71,27 +74,10 @@ def processor (api : EvalApi) : Processor Unit :=
 /-- `flawless_process` -/
 def apply (api : EvalApi) (b : Block) : Block := (Visitor.runDefault (processor api) b ()).1
 
-/-! ### the defect region (F6): a converted key that the evaluator says has side effects -/
-
-def dropsEffect (api : EvalApi) : Expr → Bool
-  | .index _ k => (convertToField api k).isSome && api.hasSideEffects k
-  | .table entries => entries.any fun
-    | .keyed k _ => (convertToField api k).isSome && api.hasSideEffects k
-    | _ => false
-  | _ => false
-
-def regionProcessor (api : EvalApi) : Processor Bool :=
-  let h : Expr → Bool → Expr × Bool := fun e s => (e, s || dropsEffect api e)
-  { expr := h, pref := h, target := h, node := h }
-
-/-- `true`: some converted key has side effects (outside `H`) -/
-def outsideH (api : EvalApi) (b : Block) : Bool := (Visitor.runDefault (regionProcessor api) b false).2
-
-
 /-! ### local soundness
 
 `t[key]` ↦ `t.name` where `evaluate(key)` is the string `name`. For a sound evaluator, on keys
-that have no side effects and allocate nothing (hypothesis `H`: F6 is outside), every
+that allocate nothing (a converted key has no side effects since the fix of F6), every
 error-free evaluation of the original is an evaluation of the rewritten node with the same
 values and the same state — in expression, assignment-target and table-entry position.
 (`validIdentifier_bytes`: the UTF-8 encoding of the produced identifier is the key's byte string.) -/
@@ -102,8 +88,16 @@ open DarkluaModel.Sem
 structure KeyOk (api : EvalApi) (good : Expr → Prop) (k : Expr) (name : String) : Prop where
   conv : convertToField api k = some name
   good : good k
-  pure : api.hasSideEffects k = false
   noAlloc : noAlloc k = true
+
+/-- a converted key has no side effects (this is the fix of F6) -/
+theorem KeyOk.pure {api : EvalApi} {good : Expr → Prop} {k : Expr} {name : String} (h : KeyOk api good k name) :
+    api.hasSideEffects k = false := by
+  have hc := h.conv
+  unfold convertToField at hc
+  by_cases hse : api.hasSideEffects k = true
+  · simp [hse] at hc
+  · simpa using hse
 
 /-- the identifier the rule produces spells exactly the key's bytes -/
 theorem validIdentifier_bytes {s : List UInt8} {name : String} (h : validIdentifier s = some name) :
@@ -122,7 +116,7 @@ theorem key_eval {N : NumOps} {api : EvalApi} {good : Expr → Prop} (hs : EvalS
     (σ σ' : State N) (vs : List (Val N)) (h : evalE call ρ n env k σ = .ok vs σ') :
     σ' = σ ∧ first vs = strVal name := by
   have hc := hk.conv
-  simp only [convertToField] at hc
+  simp only [convertToField, hk.pure, Bool.false_eq_true, if_false] at hc
   cases hkind : api.kind k with
   | string s =>
     refine ⟨hs.pure k hk.good hk.pure hk.noAlloc call ρ n env σ σ' vs h, ?_⟩
